@@ -142,6 +142,57 @@ def direct_checks(seed):
                                     'minimum of the validation history / best_nets do not reproduce it', lowest_loss=s.lowest_loss, history=hist, recomputed=redo))
             elif s.lowest_loss is None or s.best_nets is None:
                 bad.append(dict(case='four epochs run by hand, validation disabled', violated='nothing was tracked', lowest_loss=s.lowest_loss))
+        # (a') an optimiser that writes through .data (old-style / hand-written update rules), a validation epoch run by hand after training
+        # without validation, and evaluations of the best solution on points of another precision: best_nets stay the networks of the lowest loss
+        class DataSGD(torch.optim.Optimizer):
+            def __init__(self, params, lr):
+                super().__init__(params, dict(lr=lr))
+
+            def step(self, closure=None):
+                for g in self.param_groups:
+                    for p_ in g['params']:
+                        if p_.grad is not None:
+                            p_.data.add_(p_.grad.data, alpha=-g['lr'])
+        torch.manual_seed(seed + 7)
+        vg = Generator1D(6, 0., 1., method='equally-spaced')
+        net = FCNN(1, 1, hidden_units=(4,))
+        s = Solver1D(E.ode, [IVP(0., 1.)], t_min=0., t_max=1., nets=[net], n_batches_train=1, n_batches_valid=1,
+                     train_generator=Generator1D(6, 0., 1., method='equally-spaced'), valid_generator=vg, optimizer=DataSGD(net.parameters(), lr=0.05))
+        s.fit(5, tqdm_file=None)
+
+        def redo(sv):
+            t = vg.get_examples().reshape(-1, 1).requires_grad_()
+            u = sv.conditions[0].enforce(sv.best_nets[0], t)
+            return float(((diff(u, t) + u) ** 2).mean())
+        r_ = redo(s)
+        if s.lowest_loss != min(s.metrics_history['valid_loss']) or abs(r_ - s.lowest_loss) > 1e-12 * (1 + abs(r_)):
+            bad.append(dict(case='optimiser that updates the weights through .data', violated='best_nets do not reproduce the lowest loss', lowest_loss=s.lowest_loss,
+                            recomputed_with_best_nets=r_, history=s.metrics_history['valid_loss']))
+        # evaluation of the best solution on float32 points (works or raises - either way the stored best networks are untouched)
+        before = {k: v.clone() for k, v in s.best_nets[0].state_dict().items()}
+        for call in (lambda: s.get_residuals(torch.linspace(0, 1, 5, dtype=torch.float32), best=True), lambda: s.get_solution(copy=False, best=True)(torch.linspace(0, 1, 5, dtype=torch.float32))):
+            try:
+                call()
+            except Exception:
+                pass
+        after = s.best_nets[0].state_dict()
+        if any(before[k].dtype != after[k].dtype or not torch.equal(before[k], after[k].to(before[k].dtype)) for k in before):
+            bad.append(dict(case='best solution / residuals evaluated on float32 points', violated='the stored best networks were changed (precision) although no lower loss occurred',
+                            dtypes_now=sorted({str(v.dtype) for v in after.values()})))
+        # training without validation, then one validation epoch run by hand in the same global epoch
+        torch.manual_seed(seed + 8)
+        net = FCNN(1, 1, hidden_units=(4,))
+        s = Solver1D(E.ode, [IVP(0., 1.)], t_min=0., t_max=1., nets=[net], n_batches_train=1, n_batches_valid=0,
+                     train_generator=Generator1D(6, 0., 1., method='equally-spaced'), valid_generator=vg, optimizer=torch.optim.SGD(net.parameters(), lr=0.05))
+        s.fit(3, tqdm_file=None)
+        low0 = s.lowest_loss
+        s.n_batches['valid'] = 1
+        s.run_valid_epoch()
+        if s.lowest_loss is not None and s.lowest_loss < low0:
+            r_ = redo(s)
+            if abs(r_ - s.lowest_loss) > 1e-12 * (1 + abs(r_)):
+                bad.append(dict(case='validation epoch run by hand after training without validation (same global epoch)', violated='lowest_loss was lowered but '
+                                'best_nets are not the networks that produced it', lowest_loss=s.lowest_loss, recomputed_with_best_nets=r_))
         # (b) save() does not touch the stored best networks (buffers included); (c) load() with user networks keeps the saved best networks
         path = tempfile.mktemp(prefix='verif-c05-')
         dill.settings['byref'] = True
